@@ -24,7 +24,7 @@ const (
 	KBlocked  = 4 // client is spinning on a shim lock held by somebody else
 )
 
-const MaxClients = 16
+const MaxClients = 1024
 
 // BudgetExceeded is the panic value raised by Point when a call runs past its
 // step budget.
@@ -40,7 +40,16 @@ var (
 
 	schedR, schedW int
 	taskR, taskW   [MaxClients]int
+
+	freeIDs    []int // ids of finished library goroutines, reusable
+	nextDyn    int   // next id for a goroutine started by the library
+	spawnQ     []int // ids handed out since the scheduler last looked
+	deadlocked bool  // set by the scheduler: nobody can make progress any more
+	childOver  bool  // a library goroutine ran past its step budget
 )
+
+// childBudget bounds the steps of one goroutine started by the library.
+const childBudget = 200000000
 
 // Point is inserted by the instrumenter at every function entry, loop
 // iteration and statement touching a package-level variable.
@@ -137,15 +146,119 @@ func InitBaton(n int) {
 		schedR, schedW = p[0], p[1]
 	}
 	for i := 0; i < n; i++ {
-		if taskR[i] == 0 && taskW[i] == 0 {
-			var p [2]int
-			if err := syscall.Pipe(p[:]); err != nil {
-				fatal("zzsimrt: pipe")
-			}
-			taskR[i], taskW[i] = p[0], p[1]
-		}
+		ensurePipe(i)
 	}
+	nextDyn = n
+	freeIDs = freeIDs[:0]
+	spawnQ = spawnQ[:0]
+	deadlocked = false
 	baton = true
+}
+
+//go:norace
+func ensurePipe(i int) {
+	if taskR[i] == 0 && taskW[i] == 0 {
+		var p [2]int
+		if err := syscall.Pipe(p[:]); err != nil {
+			fatal("zzsimrt: pipe")
+		}
+		taskR[i], taskW[i] = p[0], p[1]
+	}
+}
+
+// Spawn is evaluated by the parent at a `go` statement of the library (the
+// instrumenter rewrites `go f(x)` into `go zzsimrt.GoCall(zzsimrt.Spawn(), f, x)`):
+// it reserves a client id for the new goroutine and tells the scheduler.
+//
+//go:norace
+func Spawn() int {
+	if !baton {
+		return -1
+	}
+	var id int
+	if n := len(freeIDs); n > 0 {
+		id = freeIDs[n-1]
+		freeIDs = freeIDs[:n-1]
+	} else {
+		if nextDyn >= MaxClients {
+			fatal("zzsimrt: the library started more goroutines than the simulator has client slots")
+		}
+		id = nextDyn
+		nextDyn++
+	}
+	ensurePipe(id)
+	spawnQ = append(spawnQ, id)
+	childSeen = true
+	return id
+}
+
+// Release makes the id of a finished library goroutine reusable (scheduler side).
+//
+//go:norace
+func Release(id int) { freeIDs = append(freeIDs, id) }
+
+// TakeSpawned returns the ids reserved since the last call (scheduler side).
+//
+//go:norace
+func TakeSpawned() []int {
+	if len(spawnQ) == 0 {
+		return nil
+	}
+	out := append([]int(nil), spawnQ...)
+	spawnQ = spawnQ[:0]
+	return out
+}
+
+// SetDeadlocked tells every client spinning in Blocked that waiting is futile.
+//
+//go:norace
+func SetDeadlocked(v bool) { deadlocked = v }
+
+//go:norace
+func ChildOverrun() bool { v := childOver; childOver = false; return v }
+
+//go:norace
+func noteChildOverrun() { childOver = true }
+
+// GoCall is the body of every goroutine the library starts. It parks until the
+// scheduler grants it a slice, runs the original call (function value and
+// arguments were evaluated by the parent, as the go statement requires) and
+// reports its end.
+func GoCall(id int, fn interface{}, args ...interface{}) {
+	if id >= 0 {
+		ClientStart(id)
+		BeginOp(childBudget)
+		defer func() {
+			if r := recover(); r != nil {
+				if _, ok := r.(BudgetExceeded); !ok {
+					panic(r)
+				}
+				noteChildOverrun()
+			}
+			Yield(KTaskDone)
+		}()
+	}
+	f := reflect.ValueOf(fn)
+	t := f.Type()
+	in := make([]reflect.Value, len(args))
+	for i, a := range args {
+		var pt reflect.Type
+		if t.IsVariadic() && i >= t.NumIn()-1 {
+			pt = t.In(t.NumIn() - 1).Elem()
+		} else {
+			pt = t.In(i)
+		}
+		if a == nil {
+			in[i] = reflect.Zero(pt)
+			continue
+		}
+		v := reflect.ValueOf(a)
+		if !v.Type().AssignableTo(pt) && v.Type().ConvertibleTo(pt) {
+			v = v.Convert(pt) // untyped constants arrive with their default type
+		}
+		in[i] = v
+	}
+	f.Call(in)
 }
 
 //go:norace
@@ -189,6 +302,13 @@ func Yield(kind uint64) {
 //
 //go:norace
 func Blocked() {
+	if baton && deadlocked && limit != 0 {
+		// the scheduler found that no client can ever make progress: end the
+		// call the way a non-terminating call is ended
+		l := limit
+		limit = 0
+		panic(BudgetExceeded{-l})
+	}
 	if !baton {
 		// Outside the baton exactly one goroutine uses the library. If it
 		// cannot take a lock inside a budgeted call, nobody will ever release
@@ -253,3 +373,11 @@ func Grant(id int, slice int64) (who int, kind uint64) {
 	v := rawRead(schedR)
 	return int(v >> 8), v & 0xff
 }
+
+// BatonTopLevelOnly reports whether no library goroutine was ever started in
+// this baton session (the common case: nothing extra to check).
+//
+//go:norace
+func BatonTopLevelOnly() bool { return !childSeen }
+
+var childSeen bool
